@@ -310,41 +310,73 @@ func buildPlan(op int, alt bool, opType string) *resolve.GraphQLResponse {
 	}
 }
 
-// rig is one resolver plus the plans of the client operations of one case.
+// rig is one resolver plus the (cached, immutable) plans of the client operations.
 type rig struct {
 	resolver *resolve.Resolver
 	stop     context.CancelFunc
-	plans    map[int]*resolve.GraphQLResponse
-	opType   string
-	layer    string
+	mu       sync.Mutex
+	plans    map[string]*resolve.GraphQLResponse
+	uses     int
 }
 
-func newRig(layer, opType string) *rig {
+func newRig() *rig {
 	ctx, cancel := context.WithCancel(context.Background())
 	return &rig{
 		resolver: resolve.New(ctx, resolve.ResolverOptions{MaxConcurrency: 64, PropagateSubgraphErrors: true}),
 		stop:     cancel,
-		plans:    map[int]*resolve.GraphQLResponse{},
-		opType:   opType,
-		layer:    layer,
+		plans:    map[string]*resolve.GraphQLResponse{},
 	}
 }
 
-func (r *rig) plan(op int, alt bool) *resolve.GraphQLResponse {
-	id := clientOpID(op, alt)
+var (
+	sharedMu  sync.Mutex
+	sharedRig *rig
+)
+
+// acquireRig hands out the process-wide resolver (recreated every few hundred scenarios and
+// after every scenario that did not end cleanly). Sharing it between scenarios keeps the arena
+// pools warm, so buffers really are recycled between and during scenarios.
+func acquireRig() *rig {
+	sharedMu.Lock()
+	defer sharedMu.Unlock()
+	if sharedRig != nil && sharedRig.uses >= 400 {
+		sharedRig.stop()
+		sharedRig = nil
+	}
+	if sharedRig == nil {
+		sharedRig = newRig()
+	}
+	sharedRig.uses++
+	return sharedRig
+}
+
+// discardRig drops the shared resolver (after a violation, a wedge or a watchdog expiry).
+func discardRig(r *rig) {
+	sharedMu.Lock()
+	defer sharedMu.Unlock()
+	r.stop()
+	if sharedRig == r {
+		sharedRig = nil
+	}
+}
+
+func (r *rig) plan(op int, alt bool, opType string) *resolve.GraphQLResponse {
+	id := fmt.Sprintf("%d/%s", clientOpID(op, alt), opType)
+	r.mu.Lock()
+	defer r.mu.Unlock()
 	if p, ok := r.plans[id]; ok {
 		return p
 	}
-	p := buildPlan(op, alt, r.opType)
+	p := buildPlan(op, alt, opType)
 	r.plans[id] = p
 	return p
 }
 
 // request builds the resolve.Context exactly as a router would for (client operation, key).
-func (r *rig) request(ctx context.Context, k Key, alt bool, w *who) *resolve.Context {
+func (r *rig) request(ctx context.Context, layer, opType string, k Key, alt bool, w *who) *resolve.Context {
 	ctx = context.WithValue(ctx, whoKey{}, w)
 	rc := resolve.NewContext(ctx)
-	rc.Request.ID = hash64(fmt.Sprintf("op:%d:%s", clientOpID(k.Op, alt), r.opType))
+	rc.Request.ID = hash64(fmt.Sprintf("op:%d:%s", clientOpID(k.Op, alt), opType))
 	rc.Variables = astjson.MustParseBytes([]byte(fmt.Sprintf(`{"v":%d}`, k.Var)))
 	rc.VariablesHash = hash64(fmt.Sprintf("vars:%d", k.Var))
 	if k.Hdr != 0 {
@@ -352,7 +384,7 @@ func (r *rig) request(ctx context.Context, k Key, alt bool, w *who) *resolve.Con
 	}
 	rc.RateLimitOptions.Enable = true
 	rc.SetRateLimiter(preFetchHook{})
-	switch r.layer {
+	switch layer {
 	case layerInbound:
 		rc.ExecutionOptions.DisableSubgraphRequestDeduplication = true
 	case layerSubgraph:
@@ -379,12 +411,12 @@ type outcome struct {
 
 // alone runs one request on a fresh resolver with nothing else in flight.
 func alone(layer, opType string, k Key, alt bool, script string) outcome {
-	r := newRig(layer, opType)
+	r := newRig()
 	defer r.stop()
 	w := &who{pid: -1, script: script, loads: &loadLog{}}
-	rc := r.request(context.Background(), k, alt, w)
+	rc := r.request(context.Background(), layer, opType, k, alt, w)
 	var out strings.Builder
-	info, err := r.resolver.ArenaResolveGraphQLResponse(rc, r.plan(k.Op, alt), &out)
+	info, err := r.resolver.ArenaResolveGraphQLResponse(rc, r.plan(k.Op, alt, opType), &out)
 	o := outcome{Returned: true, Out: out.String(), err: err}
 	if err != nil {
 		o.Err = err.Error()
